@@ -4,6 +4,7 @@ satisfy the lower bound the proof needs, the shape facts the protocol model was 
 and the instantiated guarantee for the source's orderings.
 -/
 import BytesVerif.Props.C06
+import BytesVerif.Props.C05
 import BytesVerif.Generated.Atomics
 namespace BytesVerif.Cert.C06
 open BytesVerif.Conc BytesVerif.Generated
@@ -20,5 +21,20 @@ theorem src_ra_safe (n : Nat) (s : St) (hr : Reach ords n s) :
 theorem src_freed_no_handles (n : Nat) (s : St) (hr : Reach ords n s) (hf : s.freed = true) :
     totalHandles s n = 0 :=
   freed_no_handles ords ords_sufficient n s hr hf
+
+/-! ### promotable handles (M5p) -/
+
+theorem pords_sufficient : BytesVerif.Promo.Sufficient pords = true := by decide
+
+/-- With the orderings found in the source, for a promotable root shared by reference among any number of threads, racing
+promotions included: no data race on buffer memory, no unordered access to the non-atomically initialised control block, no
+use after free, no double free. -/
+theorem src_promo_safe (n : Nat) (s : BytesVerif.Promo.St) (hr : BytesVerif.Promo.Reach pords n s) :
+    s.race = false ∧ s.ctrlRace = false ∧ s.uaf = false ∧ s.doubleFree = false :=
+  BytesVerif.Promo.promo_safe pords pords_sufficient n s hr
+
+theorem src_promo_freed_no_users (n : Nat) (s : BytesVerif.Promo.St) (hr : BytesVerif.Promo.Reach pords n s)
+    (hf : s.freed = true) : s.rootLive = false ∧ BytesVerif.Promo.totalHandles s n = 0 :=
+  BytesVerif.Promo.promo_freed_no_users pords pords_sufficient n s hr hf
 
 end BytesVerif.Cert.C06
